@@ -1159,7 +1159,7 @@ class C17(E2EProp):
     id = "C17"
     cone = ["Properties/C17.vo"]
     prop_file = "Properties/C17.v"
-    theorems = ["C17_safe_component_stays_inside"]
+    theorems = ["C17_safe_component_stays_inside", "C17_chapter_name_has_no_separator", "C17_prefix_with_separator_is_refused"]
     partial = ["C17_confined on the whole model (every created path lies under the output path): the model's file names are tied by S-e2e (the set of generated files is compared); created-paths outside the output directory are observed on the implementation by stream S-sandbox; proof pending"]
     VALS = ["a", "..", "../x", "../../evil", "../../../up3", "a/b", "/abs", ".", "x/../y", "a%2Fb", "..%2F..%2Fz", "..%2F..%2F..%2Fup3", "%2E%2E%2Fq", "é", ""]
 
